@@ -93,7 +93,7 @@ fn c11_5a_waitgroup_counts_0() {
 //@ obligation: C11.5a1
 //@ kind: K2
 //@ complete: no
-//@ tier: thorough
+//@ tier: experimental
 //@ bound: 1 other clone(s) alive when wait() is called (dropped one by one while the waiter is blocked)
 //@ timeout: 1800
 //@ mem: 30
@@ -120,7 +120,7 @@ fn c11_5a_waitgroup_counts_1() {
 //@ obligation: C11.5a2
 //@ kind: K2
 //@ complete: no
-//@ tier: thorough
+//@ tier: experimental
 //@ bound: 2 other clone(s) alive when wait() is called (dropped one by one while the waiter is blocked)
 //@ timeout: 1800
 //@ mem: 30
